@@ -33,15 +33,39 @@
        (So "a few MiB" of the property text is 15.5 MiB + 2.4 KiB per input octet; c14_overclaim_example shows a
        7-octet input that reserves 3.67 MB, reproduced by the implementation.)
 
-   TODO-PARTIAL: the time bound (steps <= poly(schema) * (|bs| + 1)) is not stated: the model has no step counter.
-     What is proved instead: all loops of the model are structural or on fuel that is shown sufficient, and the
-     number of list elements parsed is bounded by the same accounting (every element consumes a bit or fails).
+   Time ("never a hang") as a bound on the work done (Model/AperDecCost.v, Proofs/AperCostErase.v, AperCostPrim.v,
+   AperCostField.v, AperCostNgap.v):
+     - Model/AperDecCost.v is a step-counting copy of the decoder model, clause by clause.  One step is: a call of
+       parseField; a call of pd.getBitsValue / pd.getBitString (+ the octets of the bit string it builds, which bounds
+       the loops inside GetBitString / GetBitsValue); a direct octet read; an iteration of the bit-width / byteLen loops;
+       a turn of the fragment loops of parseBitString / parseOctetString / parseOpenType (+ the octets appended; the
+       fixed-size forms: 1 + the octets sliced); a turn of the element loop of parseSequenceOf; per struct: one per field
+       for the tag loop, a turn of the field loop, of the alternative search, of the reference-name search, a call of
+       getReferenceFieldValue.  Not counted: the strings perTrace / perBitLog format and drop, reflect bookkeeping,
+       parseFieldParameters on the constant tags, the runtime clearing what reflect.MakeSlice reserves (bounded by
+       the allocation theorem below) and append's amortised regrowth.
+     - [c14_steps_same_result]: dropping the counter gives back Model/AperDec.v - same value, same cursor, same error,
+       for all inputs and all fuel - so the streams that tie the model to the implementation tie the counted run too.
+     - [c14_parseFieldC_steps]: for every well-formed type whose list elements consume input (wf_ty, cons_ok as for the
+       allocation bound): a successful parseField takes at most  kost t + lstep t * (bits consumed)  steps, a failing
+       one at most  kost t + lstep t * (bits left).  kost: what is spent whatever the input (sum over SEQUENCE fields,
+       maximum over CHOICE alternatives, one failing element per list); lstep: steps per input bit, for a list
+       1 + kost elem + lstep elem, because every decoded element has consumed at least one bit (cons_ok holds of every
+       NGAP root: c14_ngap_lists_consume - there is no NGAP list whose element can be decoded from zero bits), so an
+       element loop makes at most one turn per input bit plus the turn that fails; a fragment loop goes round again only
+       after a fragment of >= 16384 octets/bits; an open type is decoded from octets the outer cursor passed over.
+     - computed over the regenerated schema (vm_compute): max kost = 3365, max lstep = 4862 per bit (NGAPPDU), hence
+       [c14_decode_steps_bounded]: steps <= 3365 + 38896 * |bs| for every root, input and fuel, and
+       [c14_decode_linear_time]: with the checkers' fuel the run ends in a value or an error within that many steps.
+       The bound is linear but coarse (it lets every input bit start a new element of the most expensive list):
+       the 44-octet NGSetupRequest of c14_steps_example takes 361 steps.
      On every check the streams ngap-malformed and prim-malformed run the real decoder and the
      model on every prefix, bit/byte corruptions, splices and random octets: same value | same error code, no panic,
      allocation and time within the limits. *)
 From Coq Require Import NArith ZArith List Bool String.
 Require Import GoSlice AperCommon AperEnc AperDec NgapSchema AperCheck AperSchemaProofs AperDecProofs.
 Require Import AperTotalPrim AperTotalField AperTotalAlloc AperTotalNgap.
+Require Import AperDecCost AperCostErase AperCostPrim AperCostField AperCostNgap.
 Import ListNotations.
 Open Scope N_scope.
 
@@ -195,6 +219,110 @@ Theorem c14_decode_alloc_bounded :
 Proof. exact ngap_decode_alloc_bounded. Qed.
 Print Assumptions c14_decode_alloc_bounded.
 
+(* ---- time: steps of the step-counting decoder (Model/AperDecCost.v) *)
+(* the counted run is the model's run: same value and cursor, or same error / panic / out-of-fuel, whatever the input *)
+Theorem c14_parseFieldC_same_result :
+  forall fuel t p s, fst (parseFieldC fuel t p s) = fst (parseField fuel t p s).
+Proof. exact parseFieldC_erase. Qed.
+Print Assumptions c14_parseFieldC_same_result.
+
+Theorem c14_steps_same_result :
+  forall fuel t p bs, fst (unmarshal_costed fuel t p bs) = fst (unmarshal_full fuel t p bs).
+Proof. exact unmarshal_costed_result. Qed.
+Print Assumptions c14_steps_same_result.
+
+(* the bounded readers take a constant number of steps in any state *)
+Theorem c14_parseLength_steps : forall s r, snd (parseLengthC s r) <= 12.
+Proof. exact parseLengthC_cost. Qed.
+Print Assumptions c14_parseLength_steps.
+Theorem c14_parseConstraintValue_steps : forall s r, snd (parseConstraintValueC s r) <= 12.
+Proof. exact parseConstraintValueC_cost. Qed.
+Print Assumptions c14_parseConstraintValue_steps.
+
+(* the readers that loop or read a length taken from the input: value or error as before, and at most
+   K + (bits the cursor moved) steps - also when they fail *)
+Theorem c14_parseInteger_steps :
+  forall s ext lb ub, dinv s -> octs s ->
+    sgood s anyres (fst (parseIntegerC s ext lb ub))
+    /\ snd (parseIntegerC s ext lb ub) <= 24 + (pos (snd (fst (parseIntegerC s ext lb ub))) - pos s).
+Proof. exact parseIntegerC_cgood. Qed.
+Print Assumptions c14_parseInteger_steps.
+
+Theorem c14_parseOctetString_steps :
+  forall s ext lbp ubp, dinv s -> octs s -> size_ok lbp ubp ->
+    sgood s (fun _ s' => oct_nonempty lbp = true -> pos s + 1 <= pos s') (fst (parseOctetStringC s ext lbp ubp))
+    /\ snd (parseOctetStringC s ext lbp ubp) <= 15 + (pos (snd (fst (parseOctetStringC s ext lbp ubp))) - pos s).
+Proof. exact parseOctetStringC_cgood. Qed.
+Print Assumptions c14_parseOctetString_steps.
+
+Theorem c14_parseBitString_steps :
+  forall s ext lbp ubp, dinv s -> octs s -> size_ok lbp ubp ->
+    sgood s anyres (fst (parseBitStringC s ext lbp ubp))
+    /\ snd (parseBitStringC s ext lbp ubp) <= 15 + (pos (snd (fst (parseBitStringC s ext lbp ubp))) - pos s).
+Proof. exact parseBitStringC_cgood. Qed.
+Print Assumptions c14_parseBitString_steps.
+
+Theorem c14_open_type_loop_steps :
+  forall fuel s acc, dinv s -> octs s -> octets acc -> 8 * len (d_bytes s) < 8 * N.of_nat fuel + pos s ->
+    sgood s (open_post s acc) (fst (open_dec_loopC fuel s acc))
+    /\ snd (open_dec_loopC fuel s acc) <= 17 + (pos (snd (fst (open_dec_loopC fuel s acc))) - pos s).
+Proof. exact open_dec_loopC_cgood. Qed.
+Print Assumptions c14_open_type_loop_steps.
+
+(* parseField: steps vs. input consumed (success) / input left (failure) *)
+Theorem c14_parseFieldC_steps :
+  forall fuel t p s, wf_ty t (psize_ok p) = true -> cons_ok t p = true -> dinv s -> octs s ->
+    match fst (parseFieldC fuel t p s) with
+    | Ok (v, s') => adv s s' /\ (consumes t p = true -> pos s + 1 <= pos s')
+                    /\ snd (parseFieldC fuel t p s) <= kost t + lstep t * (pos s' - pos s)
+    | _ => snd (parseFieldC fuel t p s) <= kost t + lstep t * (8 * len (d_bytes s) - pos s)
+    end.
+Proof. exact parseFieldC_steps. Qed.
+Print Assumptions c14_parseFieldC_steps.
+
+Theorem c14_unmarshal_steps_bound :
+  forall fuel t p bs, wf_ty t (psize_ok p) = true -> cons_ok t p = true ->
+    Forall (fun b => b < 256) bs -> len bs < 4294967296 ->
+    unmarshal_steps fuel t p bs <= kost t + lstep t * (8 * len bs).
+Proof. exact unmarshal_steps_bound. Qed.
+Print Assumptions c14_unmarshal_steps_bound.
+
+(* the schema-side constants, evaluated *)
+Theorem c14_ngap_steps_consts :
+  forallb (fun r : string * ty * params * params =>
+             let '(_, t, _, _) := r in (kost t <=? 3365) && (lstep t <=? 4862)) ngap_roots_full = true.
+Proof. exact ngap_steps_consts. Qed.
+Print Assumptions c14_ngap_steps_consts.
+
+(* NGAP: whatever the counts and lengths inside the input claim, one decoding call takes at most
+   3365 + 38896 * |input| steps (any root, any fuel) *)
+Theorem c14_decode_steps_bounded :
+  forall root t pe pd bs fuel, In (root, t, pe, pd) ngap_roots_full ->
+    Forall (fun b => b < 256) bs -> len bs < 4294967296 ->
+    unmarshal_steps fuel t pd bs <= 3365 + 38896 * len bs.
+Proof. exact ngap_decode_steps_bounded. Qed.
+Print Assumptions c14_decode_steps_bounded.
+
+(* for the inputs of the property (at most 4 KiB): at most 159 321 381 steps *)
+Theorem c14_decode_steps_4k :
+  forall root t pe pd bs fuel, In (root, t, pe, pd) ngap_roots_full ->
+    Forall (fun b => b < 256) bs -> len bs <= 4096 ->
+    unmarshal_steps fuel t pd bs <= 159321381.
+Proof. exact ngap_decode_steps_4k. Qed.
+Print Assumptions c14_decode_steps_4k.
+
+(* ... and with the fuel the checkers use: value or error, the counted run is that run, linear number of steps *)
+Theorem c14_decode_linear_time :
+  forall root t pe pd bs, In (root, t, pe, pd) ngap_roots_full ->
+    Forall (fun b => b < 256) bs -> len bs < 4294967296 ->
+    match unmarshal (dec_fuel t) t pd bs with Ok _ | Err _ => True | Panic _ | OutOfFuel => False end
+    /\ match fst (unmarshal_costed (dec_fuel t) t pd bs) with
+       | Ok (v, _) => Ok v | Err e => Err e | Panic q => Panic q | OutOfFuel => OutOfFuel
+       end = unmarshal (dec_fuel t) t pd bs
+    /\ unmarshal_steps (dec_fuel t) t pd bs <= 3365 + 38896 * len bs.
+Proof. exact ngap_decode_linear_time. Qed.
+Print Assumptions c14_decode_linear_time.
+
 (* constants of the schema used by the bounds *)
 Theorem c14_root_depth_bound : forallb (fun r => let '(_, t, _, _) := r in Nat.leb (ty_depth t) max_root_depth) ngap_roots_full = true.
 Proof. exact root_depth_bound. Qed.
@@ -237,3 +365,22 @@ Example c14_worst_chain_attained :
   unmarshal_alloc (dec_fuel (root_ty "NGAPPDU")) (root_ty "NGAPPDU") (root_pdec "NGAPPDU") inp = 16252872
   /\ unmarshal (dec_fuel (root_ty "NGAPPDU")) (root_ty "NGAPPDU") (root_pdec "NGAPPDU") inp = Err E_TRUNCATED.
 Proof. vm_compute. split; reflexivity. Qed.
+(* time, non-vacuity: the 44-octet NGSetupRequest the implementation produced (Properties/C04.v) decodes to a value in
+   361 steps, within the bound of c14_decode_steps_bounded; the worst-chain input above fails after 308 steps *)
+Definition c14_ngsetup_bytes : list N := [0;21;0;40;0;0;2;0;82;128;20;8;128;100;122;108;103;114;49;106;113;101;115;97;103;50;57;119;97;48;122;0;27;128;9;0;142;184;201;80;246;97;27;106].
+Example c14_steps_example :
+  match unmarshal (dec_fuel (root_ty "NGAPPDU")) (root_ty "NGAPPDU") (root_pdec "NGAPPDU") c14_ngsetup_bytes with Ok _ => True | _ => False end
+  /\ unmarshal_steps (dec_fuel (root_ty "NGAPPDU")) (root_ty "NGAPPDU") (root_pdec "NGAPPDU") c14_ngsetup_bytes = 361
+  /\ 0 < 361 /\ 361 <= 3365 + 38896 * len c14_ngsetup_bytes
+  /\ Forall (fun b => b < 256) c14_ngsetup_bytes.
+Proof.
+  split; [vm_compute; exact I|]. split; [vm_compute; reflexivity|]. split; [reflexivity|]. split; [vm_compute; discriminate|].
+  unfold c14_ngsetup_bytes. repeat constructor.
+Qed.
+Example c14_steps_worst_chain_example :
+  let inp := [32;32;0;29;0;255;255;0;12;0;22;32;255;255;0;0;0;0;0;0;0;255;255;16;0;0;0;0;0;0;0;255;255] in
+  unmarshal_steps (dec_fuel (root_ty "NGAPPDU")) (root_ty "NGAPPDU") (root_pdec "NGAPPDU") inp = 308.
+Proof. vm_compute. reflexivity. Qed.
+(* the constants are those of the NGAPPDU root *)
+Example c14_steps_consts_example : kost (root_ty "NGAPPDU") = 3365 /\ lstep (root_ty "NGAPPDU") = 4862.
+Proof. split; vm_compute; reflexivity. Qed.
